@@ -165,7 +165,7 @@ def run_families(families: list[Family], workers: int | None) -> tuple[Any, dict
                 "solver_checks": res.solver_checks,
                 "solver_s": round(res.solver_s, 3),
                 "wall_s": round(res.wall_s, 3),
-                "violations": len(res.violations),
+                "violations": sum(res.violation_counts.values()),
                 "variables": fam.variables,
             }
     total.exhausted = all_exhausted
@@ -377,8 +377,8 @@ def run_check(
                 by_sig[sig].append(payload)
 
     sig_count = {s: 0 for s in by_sig}
-    for v in total.violations:
-        sig_count[v["signature"]] += 1
+    for s_, n_ in total.violation_counts.items():
+        sig_count[s_] = sig_count.get(s_, 0) + n_
     for o in obligations:
         if o.status == "violated":
             sig_count[o.signature or o.name] += 1
